@@ -76,6 +76,14 @@ CAUSE_DOC = collections.OrderedDict([
     ("unicode-line-separator-in-literal",
      "a literal holding U+2028 / U+2029 / U+0085 / FF / VT / FS / GS / RS unescaped (legal in N-Triples, whose only line ends "
      "are LF and CR): the statement must stay one line"),
+    ("bnode-label-with-dot",
+     "blank-node label with '.', '-' or digits inside (_:genid.1, _:b-2, _:a.b.c): the label is one token up to the next blank"),
+    ("multi-file",
+     "several N-Triples files read through list_of_source_files (sheXer's factory: MultiNtTriplesYielder, also over the members "
+     "of one ZIP archive): triples in file order, error_triples = malformed lines so far while every triple is yielded and at the end"),
+    ("multi-zip",
+     "two ZIP archives (MultiZipTriplesYielder): once the iteration is over the totals count the last archive twice "
+     "(its figures are added to the running total AND still read from _current_yielder)"),
     ("no-space-after-object",
      "object token that ends at the next blank (blank node, typed / language-tagged literal, literal with '^^' in it) directly "
      "followed by the final dot or a tab"),
@@ -114,6 +122,9 @@ CAUSE_DOC = collections.OrderedDict([
     ("language-tag", "language-tagged literal"),
     ("custom-prefix-datatype",
      "datatype written with a declared prefix other than xsd/rdf/dt/geo: decide_literal_type ignores the prefix table"),
+    ("relative-datatype-under-base",
+     "literal whose datatype is a relative IRI (\"20\"^^<celsius>): it resolves against the @base in force, also when the same "
+     "literal text was read under another base earlier in the document or in an earlier document of the same process"),
     ("prefix-redeclared",
      "a prefix label declared again with another namespace: from there on the later declaration holds (names used before and after)"),
     ("base-redeclared", "@base declared again: relative IRIs after it resolve against the later base"),
@@ -163,7 +174,8 @@ def _key_rank(pid, key):
 # ================================================================================================
 def gen_cases(pid, tier, seed):
     """-> list of work units: ("line", case) | ("ntdoc", items) | ("ntdoc-oracle", items) | ("ttl", case) |
-    ("ttlx", case: @prefix / @base declared again) | ("outside", construct, text)."""
+    ("ttlx", case: @prefix / @base declared again) | ("ttlseq", documents read one after the other by one process) |
+    ("multifile", case) | ("outside", construct, text)."""
     rng = random.Random("%s-%s" % (pid, seed))
     size = SIZES[tier][pid]
     units = []
@@ -183,6 +195,10 @@ def gen_cases(pid, tier, seed):
             add(case)
         for case in R.nt_line_separator_cases():
             add(case)
+        for case in R.nt_bnode_label_cases():
+            add(case)
+        for case in R.multifile_cases():
+            units.append(("multifile", case))
         for items in R.nt_line_separator_documents():
             units.append(("ntdoc-oracle", items))
         lo = max(L_all + L_default) + 1
@@ -217,6 +233,8 @@ def gen_cases(pid, tier, seed):
             units.append(("ttl", R.ttl_random_case(rng, safe_layout=True)))
         for case in R.ttl_redeclaration_cases():
             units.append(("ttlx", case))
+        for case in R.ttl_sequence_cases():
+            units.append(("ttlseq", case))
         for (construct, text) in R.OUTSIDE_DIALECT:
             units.append(("outside", construct, text))
     return units
@@ -342,6 +360,52 @@ def eval_unit(unit, confirm=False):
             rec = {"pid": "C06", "kind": "ntdoc-oracle", "case": [list(i) for i in unit[1]], "text": doc, "symptom": text,
                    "expected": {"triples": [R.nt_expected(x) for k, x in items], "error_triples": 0}}
             res["deviations"].append((make_key("C06", category, symptom), rec))
+        return res
+    if kind == "multifile":
+        case = unit[1]
+        texts, rows, errs_at, bad = R.multifile_content(case)
+        good = "".join(ln + "\n" for t in texts for ln in t.split("\n") if ln and ln not in R.MALFORMED_LINES)
+        ref = R.rdflib_nt(good)                                   # the referee reads the good statements of all files
+        if ref[0] != "ok" or ref[1] != rows:
+            res["dropped"] = ("rejected: " + ref[1]) if ref[0] != "ok" else "disagrees: rdflib reads %r, generator %r" % (ref[1], rows)
+            return res
+        outcome = R.read_multifile(case)
+        res["evaluated"] = 1
+        res["nontrivial"] = 1
+        for (category, symptom, descr) in R.multifile_classify(case, outcome):
+            rec = {"pid": "C06", "kind": "multifile", "case": case, "text": "\n--- next file ---\n".join(texts),
+                   "expected": {"triples": rows, "error_triples_while_each_triple_is_yielded": errs_at, "error_triples_at_the_end": bad},
+                   "observed": _jsonable_outcome(outcome), "symptom": descr}
+            res["deviations"].append((make_key("C06", category, symptom), rec))
+        return res
+    if kind == "ttlseq":
+        case = unit[1]
+        texts, exps = [], []
+        for d in case["docs"]:
+            t, e = R.redecl_text(d), R.redecl_expected(d)
+            ref = R.rdflib_ttl(t)
+            if ref[0] != "ok":
+                res["dropped"] = "rejected: " + ref[1]
+                return res
+            if not R.same_graph(ref[1], e):
+                res["dropped"] = "disagrees: rdflib reads %r, generator %r" % (ref[1], e)
+                return res
+            texts.append(t)
+            exps.append(e)
+        res["evaluated"] = 1
+        res["nontrivial"] = 1
+        for i, (d, t, e) in enumerate(zip(case["docs"], texts, exps)):      # same process, one after the other
+            outcome = R.read_ttl(t)
+            devs = R.redecl_classify(d, outcome, e)
+            if devs:
+                category, symptom, descr = devs[0]
+                if category == "other" and R.has_relative_datatype(d):
+                    category = "relative-datatype-under-base"
+                rec = {"pid": "C07", "kind": "ttlseq", "case": case, "text": "\n--- next document, same process ---\n".join(texts),
+                       "expected": exps, "observed": _jsonable_outcome(outcome),
+                       "symptom": "document %d of %d read one after the other: %s" % (i + 1, len(texts), descr)}
+                res["deviations"].append((make_key("C07", category, symptom), rec))
+                break
         return res
     if kind == "ttlx":
         case = unit[1]
@@ -478,7 +542,7 @@ def _unit_of(rec):
         return ("line", rec["case"])
     if rec["kind"] == "ntdoc":
         return ("ntdoc", rec["case"])
-    if rec["kind"] in ("ttl", "ttlx", "ntdoc-oracle"):
+    if rec["kind"] in ("ttl", "ttlx", "ntdoc-oracle", "multifile", "ttlseq"):
         return (rec["kind"], rec["case"])
     return ("outside", rec["construct"], rec["text"])
 
@@ -643,6 +707,37 @@ def _mutants():
             return target_str[first_index:].find(" ") + first_index - 1
         return patch(nt.NtTriplesYielder, "_look_for_last_index_of_unspaced_token", bad)
 
+    def errors_of_a_finished_file_swapped():
+        mf = sys.modules["shexer.io.graph.yielder.multifile_base_triples_yielder"].MultifileBaseTripleYielder
+
+        def bad(self, a_source_file, parse_namespaces=False):
+            if self._last_yielder is not None:
+                self._triples_yielded_from_used_yielders += self._last_yielder.yielded_triples
+                self._error_triples_from_used_yielders += self._last_yielder.yielded_triples      # the one-token swap
+            self._last_yielder = self._constructor_file_yielder(a_source_file=a_source_file)
+            for a_triple in self._yield_triples_of_last_yielder(parse_namespaces):
+                yield a_triple
+        return patch(mf, "_yield_triples_of_file", bad)
+
+    def bnode_label_by_regex():
+        import re as _re
+        pat = _re.compile(r"_:[\w\-]+")
+
+        def bad(self, target_str, first_index):
+            m = pat.match(target_str, first_index)
+            return (m.end() if m else first_index + 1) - 1
+        return patch(nt.NtTriplesYielder, "_look_for_last_index_of_bnode_token", bad)
+
+    def literal_type_cached_by_suffix():
+        ty = sys.modules["shexer.utils.triple_yielders"]
+        old = ty.parse_literal
+        cache = {}                                                     # module-level: survives documents and @base lines
+
+        def bad(an_elem, base_namespace=None):
+            content, elem_type = old(an_elem=an_elem, base_namespace=base_namespace)
+            return content, cache.setdefault(an_elem[an_elem.rfind('"') + 1:], elem_type)
+        return patch(ty, "parse_literal", bad)
+
     def lines_by_splitlines():
         rs = sys.modules["shexer.io.line_reader.raw_string_line_reader"].RawStringLineReader
 
@@ -694,6 +789,11 @@ def _mutants():
         ("C06", "tune_token labels every literal xsd:string", every_literal_a_string),
         ("C06", "token end = find(' ') - 1 (non-termination must come back under keys ending in :hang)", token_end_search_runs_backwards, ":hang"),
         ("C06", "RawStringLineReader.read_lines uses str.splitlines()", lines_by_splitlines, "", "C06:unicode-line-separator-in-literal:"),
+        ("C06", "multi-file: yielded_triples of the finished file added to the error total", errors_of_a_finished_file_swapped, "",
+         "C06:multi-file:error-count"),
+        ("C06", "_look_for_last_index_of_bnode_token matches _:[\\w\\-]+", bnode_label_by_regex, "", "C06:bnode-label-with-dot:"),
+        ("C07", "parse_literal caches the datatype by the text after the closing quote", literal_type_cached_by_suffix, "",
+         "C07:relative-datatype-under-base:"),
         ("C07", "_parse_elem memoised by raw token across @prefix / @base lines", prefix_expansion_memo, "", "C07:prefix-redeclared:"),
         ("C07", "_assing_tmp_element_and_promote_state: predicate after ';' taken for the object", state_machine_keeps_waiting_for_object),
         ("C07", "',' handled like ';' in the statement state machine", comma_resets_to_predicate),
